@@ -329,51 +329,8 @@ func ruleFeatureTables(c *core.Ctx) {
 		return
 	}
 	info := pk.TypesInfo
-	maps := map[string]map[string][]string{}
-	for _, f := range pk.Syntax {
-		for _, d := range f.Decls {
-			gd, ok := d.(*ast.GenDecl)
-			if !ok {
-				continue
-			}
-			for _, sp := range gd.Specs {
-				vs, ok := sp.(*ast.ValueSpec)
-				if !ok {
-					continue
-				}
-				for i, nm := range vs.Names {
-					if i >= len(vs.Values) {
-						continue
-					}
-					cl, ok := vs.Values[i].(*ast.CompositeLit)
-					if !ok {
-						continue
-					}
-					mm := map[string][]string{}
-					for _, el := range cl.Elts {
-						kv, ok := el.(*ast.KeyValueExpr)
-						if !ok {
-							continue
-						}
-						k, ok := astx.ConstString(info, kv.Key)
-						if !ok {
-							continue
-						}
-						if v, ok := astx.ConstString(info, kv.Value); ok {
-							mm[k] = []string{v}
-						} else if vl, ok := kv.Value.(*ast.CompositeLit); ok {
-							for _, e := range vl.Elts {
-								if v, ok := astx.ConstString(info, e); ok {
-									mm[k] = append(mm[k], v)
-								}
-							}
-						}
-					}
-					maps[nm.Name] = mm
-				}
-			}
-		}
-	}
+	_ = info
+	maps := featureTableMaps(c)
 	conf, def, min := maps["FeatureConfigurations"], maps["DefaultFeatures"], maps["MinimalFeatureSet"]
 	if conf == nil || def == nil || min == nil {
 		c.Unknown("EXH/features", "tables", "", "FeatureConfigurations / DefaultFeatures / MinimalFeatureSet not all found")
@@ -432,4 +389,60 @@ func ruleFeatureTables(c *core.Ctx) {
 			c.Check(ok, "EXH/features", fmt.Sprintf("ledgerSetups[%d]:%s", ls.Index, cond), ls.Pos, "valid pair", "ledgerSetups requires "+cond+" which is not a valid configuration: the per-ledger objects would never be installed")
 		}
 	}
+}
+
+// featureTableMaps reads the map literals of pkg/features (FeatureConfigurations, DefaultFeatures,
+// MinimalFeatureSet, …): name -> key -> values.
+func featureTableMaps(c *core.Ctx) map[string]map[string][]string {
+	pk := c.Prog().Pkg(pkgFeatures)
+	if pk == nil {
+		return nil
+	}
+	info := pk.TypesInfo
+	maps := map[string]map[string][]string{}
+	for _, f := range pk.Syntax {
+		for _, d := range f.Decls {
+			gd, ok := d.(*ast.GenDecl)
+			if !ok {
+				continue
+			}
+			for _, sp := range gd.Specs {
+				vs, ok := sp.(*ast.ValueSpec)
+				if !ok {
+					continue
+				}
+				for i, nm := range vs.Names {
+					if i >= len(vs.Values) {
+						continue
+					}
+					cl, ok := vs.Values[i].(*ast.CompositeLit)
+					if !ok {
+						continue
+					}
+					mm := map[string][]string{}
+					for _, el := range cl.Elts {
+						kv, ok := el.(*ast.KeyValueExpr)
+						if !ok {
+							continue
+						}
+						k, ok := astx.ConstString(info, kv.Key)
+						if !ok {
+							continue
+						}
+						if v, ok := astx.ConstString(info, kv.Value); ok {
+							mm[k] = []string{v}
+						} else if vl, ok := kv.Value.(*ast.CompositeLit); ok {
+							for _, e := range vl.Elts {
+								if v, ok := astx.ConstString(info, e); ok {
+									mm[k] = append(mm[k], v)
+								}
+							}
+						}
+					}
+					maps[nm.Name] = mm
+				}
+			}
+		}
+	}
+	return maps
 }
